@@ -26,6 +26,7 @@ RULE = (
     "non-trivial = a saved step with p>0 and a Solve not followed by a save. matpoint: MaterialPoint.Run "
     "mixed control. distinct = sha1 of the serialised case."
     ' Round 8: simu_commit may save the initial configuration before the first solve; solvers may give the elastic law its Poisson ratio after the behaviours are built.'
+    ' Round 9: matpoint also requires every recorded row to be one Behavior.Integrate from the previous row.'
 )
 ASSUMPTIONS = [
     "the elastic stiffness C of the 3D elastic law is the trusted input (checked by C11)",
